@@ -158,10 +158,15 @@ impl Module for M {
          empty strings and images, null font); rejection ops with out-of-range coordinates / indices; scale.adapter: representative shapes, images, text and target \
          calls drawn through every adapter kind, every ordered pair of kinds and some 3-deep stacks (areas / offsets at display scale, partly or wholly outside, negative, empty) on \
          320x240 / 1024x768 / 1024x1024 / off-origin / empty roots, then seeded random stacks x jobs. Every op runs all constructors, queries \
-         and draw() under an armed allocation counter, overflow checks and debug assertions. Non-trivial: the op iterated at least one pixel or point; distinct = op text."
+         and draw() under an armed allocation counter, overflow checks and debug assertions. Model side of the result lines (plain models, Driver/Scale.lean): scale.shape for every \
+         shape kind when the styled bounding box and the primitive's box are at most 100 000 px (arcs / sectors through trailing `hk` hook tokens), scale.image, scale.text for a built-in font with \
+         both or neither of text / background colour, scale.reject sub; every other scale.shape / scale.text / scale.reject / scale.dotted op is oracle only (`skip`). Non-trivial: the op iterated at least one pixel or point; distinct = op text."
     }
 
     fn generate(&self, _pid: &str, tier: Tier, rng: &mut Rng, emit: &mut dyn FnMut(String)) {
+        // `scale.shape arc|sector ..`: trailing hook tokens for the model side (shapes.rs `with_hooks`; never read by `execute`)
+        let mut hooked = |s: String| emit(with_hooks(s));
+        let emit: &mut dyn FnMut(String) = &mut hooked;
         let quick = tier == Tier::Quick;
         // degenerate objects first
         for st in ["7 9 1 1", "7 9 128 0", "- 9 3 2", "7 - 0 1", "- - 0 1"] {
